@@ -196,28 +196,51 @@ def check(facts, res):
                 ok = ok and from_parents
             kind, why = ("dependency", "the block checker recurses on an element of the held block's parents") if ok else (None, "the recursive argument is not an element of `parents`")
         else:
+            # structural recursion, possibly spread over several functions (`flatten -> flatten_object -> flatten_field ->
+            # flatten`): every call inside the component hands over values of the caller; an edge makes *progress* when some
+            # argument is a strict sub-value of one of the caller's values (the payload of a matched variant, an element, a field)
+            # or an object removed from the collection being consumed; an edge that merely passes values on is allowed as long
+            # as the pass-on edges alone form no cycle (every cycle contains a progress edge)
             ok = True
+            pass_edges = []
             for m, s in rec_sites:
                 tgt = [tb for tb in s.targets if tb.path in comp and tb.kind != "closure"]
                 if not tgt:
                     continue        # a call that merely passes the recursive closure on (map / filter_map / for_each)
                 vals = [du_of(m).operand_term(a, 30) for a in s.term.args]
-                root_fn_ = facts.body(roots[0])
-                structural = False
-                for v in vals[1:]:
+                progress = False
+                known = True
+                for v in vals:
                     consumed = any(x[0] == "call" and callee_name(x) == "remove" for x in walk(v))
+                    # values of the caller other than the collection being consumed (a lookup in the collection is not a sub-value)
+                    rm_ = facts.body(m.parent) if m.kind == "closure" and m.parent and facts.body(m.parent) is not None else m
+
+                    def is_coll(y, _m=m, _rm=rm_):
+                        """y denotes the collection being consumed (a `&mut HashMap` parameter, possibly captured)"""
+                        if y[0] == "param" and y[1] < len(_m.locals):
+                            return "HashMap<" in _m.local_ty(y[1])
+                        if y[0] == "upvar":
+                            return any("HashMap<" in _rm.local_ty(i_) for i_ in range(1, _rm.argc + 1) if _rm.local_name(i_) == y[2])
+                        return False
+                    from_own = any(x[0] in ("param", "upvar") and not is_coll(x) for x in walk(v)) and \
+                        not any(x[0] == "call" and callee_name(x) in ("get", "get_mut") and x[2] and any(is_coll(y) for y in walk(x[2][0])) for x in walk(v))
                     if m.kind != "closure":
-                        # a sub-value of the value parameter (matched variant payload, element, field)
-                        sub = any(x[0] == "param" and x[1] == 2 for x in walk(v)) and \
-                            any(x[0] in ("downcast", "index") or (x[0] == "call" and callee_name(x) in ("next", "get", "as_array", "as_object")) for x in walk(v))
+                        sub = from_own and any(x[0] in ("downcast", "index") or (x[0] == "call" and callee_name(x) in ("next", "get", "as_array", "as_object", "iter", "values")) for x in walk(v))
                     else:
-                        # the element the closure is applied to, where the closure is mapped over a collection taken out of the
-                        # parent's value parameter (`Value::Array(a) => a.iter().map(|v| f(c, v))`)
                         sub = any(x[0] == "param" and x[1] == 2 for x in walk(v)) and _closure_over_subvalues(facts, cg, m)
                     if sub or consumed:
-                        structural = True
-                ok = ok and structural
-            kind, why = ("structural", "recursion on a sub-value of the value parameter or on an object removed from the consumed collection") if ok else (None, "a recursive call is not on a sub-value")
+                        progress = True
+                root_m = (m.parent if m.kind == "closure" and m.parent else m.path)
+                if not progress:
+                    pass_edges.append((root_m, tgt[0].path))
+            # pass-on edges must not form a cycle
+            pg = {}
+            for a_, b2 in pass_edges:
+                pg.setdefault(a_, set()).add(b2)
+            if _sccs(pg):
+                ok = False
+            kind, why = ("structural", "recursion on a sub-value of the caller's value or on an object removed from the consumed collection; pass-on edges: %d, acyclic" % len(pass_edges)) if ok else \
+                (None, "the calls that pass values on unchanged form a cycle (%s)" % pass_edges)
         res.instance("R5", "recursion %s: %s (%s)" % (roots, kind or "UNCLASSIFIED", why), facts.body(roots[0]).loc() if facts.body(roots[0]) else None)
         if kind is None:
             res.violation("R5", "%s|unclassified-recursion" % roots[0],
@@ -309,7 +332,8 @@ def _closure_over_subvalues(facts, cg, m):
     for s in cg.callers_of(m.path):
         if m in s.closures and s.term.args:
             recv = du_of(s.body).operand_term(s.term.args[0], 30)
-            if any(x[0] == "param" and x[1] == 2 for x in walk(recv)) and any(x[0] == "downcast" for x in walk(recv)):
+            if any(x[0] in ("param", "upvar") for x in walk(recv)) and \
+                    any(x[0] == "downcast" or (x[0] == "call" and callee_name(x) in ("iter", "values", "as_array", "as_object", "into_iter")) for x in walk(recv)):
                 return True
     return False
 
